@@ -1313,6 +1313,9 @@ class dictable(Dict):
         rs = type(self)(xys, x + (y_,))        
         ys = rs[as_list(y_)].listby(y_)
         y2id = dict(zip(ys[y_], range(len(ys))))
+        columns = [str(k) if is_int(k) else k for k in y2id] ## the column names the y values become in dictable.__init__
+        if len(set(columns)) < len(columns) or set(columns) & set(x):
+            raise ValueError('y values %s do not give distinct column names (distinct from %s): a column would silently replace another'%(list(y2id), list(x)))
         xs, yids = rs._listby(x)
         res = [[None for _ in range(len(ys))] for _ in range(len(xs))]
         for i in range(len(xs)):
